@@ -25,11 +25,51 @@ BOOKKEEPING = {
 }
 
 
+def _is_deepcopy_of_self(c: ast.Call, sn: str) -> bool:
+    return (chain(c.func) or "").split(".")[-1] == "deepcopy" and bool(c.args) and src(c.args[0]) == sn
+
+
+_HELPER_CACHE: Dict[int, Dict[str, FuncInfo]] = {}
+
+
+def copy_helpers(idx: ProgramIndex, cls: ClassInfo) -> Dict[str, FuncInfo]:
+    """methods of `cls` (own or inherited, other than get_fantasy_*) that deep-copy self and return the copy on every return:
+    `self.<helper>(...)` is then as fresh as `deepcopy(self)` itself, and the helper belongs to the fantasy path"""
+    key = id(cls)
+    if key in _HELPER_CACHE:
+        return _HELPER_CACHE[key]
+    out: Dict[str, FuncInfo] = {}
+    _HELPER_CACHE[key] = out
+    for k in cls.mro():
+        for name, m in getattr(k, "methods", {}).items():
+            if name in out or name.startswith("get_fantasy_") or not m.params or m.kind != "method":
+                continue
+            if not any(_is_deepcopy_of_self(c, m.params[0]) for c in calls_in(m.node)):
+                continue
+            fresh = _fresh_locals(idx, m, helpers=False)
+            rets = [r.value for r in ast.walk(m.node) if isinstance(r, ast.Return) and r.value is not None]
+            if rets and all(isinstance(r, ast.Name) and r.id in fresh for r in rets):
+                out[name] = m
+    return out
+
+
+def _helper_call(idx: ProgramIndex, fi: FuncInfo, c: ast.AST) -> Optional[FuncInfo]:
+    if fi.cls is not None and fi.params and isinstance(c, ast.Call) and isinstance(c.func, ast.Attribute) and isinstance(c.func.value, ast.Name) and c.func.value.id == fi.params[0]:
+        return copy_helpers(idx, fi.cls).get(c.func.attr)
+    return None
+
+
 def fantasy_functions(idx: ProgramIndex) -> List[FuncInfo]:
     out = []
     for fi in idx.all_functions():
         if fi.cls is not None and fi.name in ("get_fantasy_model", "get_fantasy_strategy", "get_fantasy_likelihood"):
             out.append(fi)
+    # ... and the copy-making helpers they delegate to
+    for fi in list(out):
+        for c in calls_in(fi.node):
+            h = _helper_call(idx, fi, c)
+            if h is not None and h not in out:
+                out.append(h)
     return sorted(out, key=lambda f: (f.module.name, f.qualname))
 
 
@@ -123,8 +163,9 @@ def pairing(idx: ProgramIndex, fi: FuncInfo, rep: Report):
 
 
 # ---- C04-2 ---------------------------------------------------------------------------------------------------------
-def _fresh_locals(idx: ProgramIndex, fi: FuncInfo) -> Set[str]:
-    """locals bound to objects created in this function (constructor calls, deepcopy, get_fantasy_* results, comprehensions)"""
+def _fresh_locals(idx: ProgramIndex, fi: FuncInfo, helpers: bool = True) -> Set[str]:
+    """locals bound to objects created in this function (constructor calls, deepcopy, get_fantasy_* results, results of the
+    class's own copy-making helpers, comprehensions)"""
     fresh: Set[str] = set()
     changed = True
     while changed:
@@ -140,6 +181,8 @@ def _fresh_locals(idx: ProgramIndex, fi: FuncInfo) -> Set[str]:
                         ok = True
                     r = idx.resolve_expr(fi.module, v.func)
                     if isinstance(r, ClassInfo):
+                        ok = True
+                    if not ok and helpers and _helper_call(idx, fi, v) is not None:
                         ok = True
                 elif isinstance(v, ast.Attribute) and isinstance(v.value, ast.Name) and v.value.id in fresh:
                     ok = True  # attribute of a fresh object (fantasy_model.prediction_strategy)
@@ -555,6 +598,8 @@ def likelihood_copies(idx: ProgramIndex, rep: Report):
                 continue
             if isinstance(r, ast.Call) and ((chain(r.func) or "").split(".")[-1] == "deepcopy" or is_super_call(r, "get_fantasy_likelihood")):
                 continue
+            if _helper_call(idx, fi, r) is not None:
+                continue  # a helper of the class that deep-copies self and returns the copy (analysed as part of the fantasy path)
             # a container of members: a new container built (starred) from a list every element of which is the fantasy likelihood of a member
             if isinstance(r, ast.Call) and chain(r.func) in ("%s.__class__" % sn, "type(%s)" % sn) and len(r.args) == 1 and isinstance(r.args[0], ast.Starred) and isinstance(r.args[0].value, ast.Name):
                 lst = r.args[0].value.id
